@@ -28,9 +28,11 @@ def main():
     jobs = []
     sd = os.path.join(VERIF, 'seeded')
     bd = os.path.join(VERIF, 'corpus', 'benign')
+    own_only = '--own-only' in sys.argv      # seeded changes are evaluated by the check of their own property only (half the time)
     for pid in sorted(os.listdir(sd)):
         if os.path.exists(os.path.join(sd, pid, 'patch.diff')):
-            for p in ALL:
+            tgt = json.load(open(os.path.join(sd, pid, 'meta.json'))).get('breaks_property') or pid.split('-')[0]
+            for p in ([tgt] if own_only else ALL):
                 jobs.append(('seeded', pid, os.path.join(sd, pid, 'patch.diff'), p))
     for pid in sorted(os.listdir(bd)):
         if os.path.exists(os.path.join(bd, pid, 'patch.diff')):
@@ -42,7 +44,7 @@ def main():
     for kind, pid, prop, out, det in res:
         by.setdefault((kind, pid), {})[prop] = (out, det)
     lines = []
-    lines.append('| change | breaks | what was changed | reported by its own check (rule [construct]) | also reported by | first contact (rounds 2 and 3) |')
+    lines.append('| change | breaks | what was changed | reported by its own check (rule [construct]) | also reported by' + (' (not re-evaluated in this run)' if own_only else '') + ' | first contact (rounds 2 to 6) |')
     lines.append('|---|---|---|---|---|---|')
     n_hit = n = 0
     for (kind, pid), rs in sorted(by.items()):
@@ -55,10 +57,12 @@ def main():
         own = '**missed**' if out != 'exit1' else '; '.join(sorted({re.match(r'(\S+ \[[^\]]*\])', d).group(1) if re.match(r'(\S+ \[[^\]]*\])', d) else d[:40]
                                                                      for d in det}))[:230]
         n_hit += out == 'exit1'
-        others = ' '.join(p for p in ALL if p != target and rs[p][0] == 'exit1')
-        e2 = ' '.join(f'{p}(exit 2)' for p in ALL if rs[p][0] == 'exit2')
+        others = ' '.join(p for p in ALL if p != target and p in rs and rs[p][0] == 'exit1')
+        e2 = ' '.join(f'{p}(exit 2)' for p in ALL if p in rs and rs[p][0] == 'exit2')
+        if own_only:
+            others = '(other checks: see first contact)' if False else ''
         fc = ''
-        if re.search(r'-[4-9]$', pid):        # rounds 2 and 3: meta.json keeps what the checks said BEFORE anything was changed for it
+        if re.search(r'-(?:[4-9]|1\d)$', pid):        # rounds 2 and 3: meta.json keeps what the checks said BEFORE anything was changed for it
             fc = ('own check' if meta.get('detected_by_target_check') else
                   ('only ' + ' '.join(meta.get('detected_by') or []) if meta.get('detected_by') else 'missed by all'))
             if target in (meta.get('analysis_errors') or {}):
